@@ -8,7 +8,7 @@ patch, out = sys.argv[1], sys.argv[2]
 base = json.load(open(sys.argv[3]))["Replace"] if len(sys.argv) > 3 and os.path.exists(sys.argv[3]) else {}
 shutil.rmtree(out, ignore_errors=True)
 os.makedirs(out)
-files = re.findall(r'^\+\+\+ b/(\S+)', open(patch).read(), re.M)
+files = re.findall(r'^\+\+\+ [ab]/(\S+)', open(patch).read(), re.M)
 for f in files:
     dst = os.path.join(out, "src", f)
     os.makedirs(os.path.dirname(dst), exist_ok=True)
